@@ -361,7 +361,9 @@ class CHText:
             for part in other:
                 self += part
         elif isinstance(other, type(self)):
-            for part in other.chunks:
+            # 'other' may be 'self' (t += t): do not iterate the list
+            # which is being modified
+            for part in tuple(other.chunks):
                 self._append_chunk(part)
         else:
             self._append_chunk(self.Chunk.make_plain(str(other)))
